@@ -64,6 +64,20 @@ def runJudgeSer : P String := do
     | none => pure "bad-case hex"
   | _, _ => pure "judged # ok"
 
+def deOne (cfg : DeConfig) (S : Schema) (root : Node) (depth : Nat) (hint : Hint) (st0 : RState) :
+    Except DeErr (Out × Nat) :=
+  let fuel := (depth + 4) * (cfg.maxSeqSize + 8 * S.size + 64) + 16 * st0.rest.length + 4096
+  let (r, st) := de deExtModel cfg S fuel root depth false hint st0
+  match r with
+  | .ok o => .ok (o, st.rest.length)
+  | .error e => .error e
+
+def fmtDe : Except DeErr (Out × Nat) → String
+  | .ok (o, left) => s!"ok {outToString o} left {left}"
+  | .error .custom => "err custom"
+  | .error .io => "err io"
+  | .error .panic => "panic"
+
 /-- `de <backend> <maxSeq> <depth> <schema> <hint> <bytes>` → `ok <out> left <n>` / `err <class>`. -/
 def runDe : P String := do
   let mk ← pBackend (fun b => { rest := b })
@@ -77,14 +91,44 @@ def runDe : P String := do
   | none => pure "noroot"
   | some root =>
     let cfg : DeConfig := { maxSeqSize := maxSeq, allowedDepth := depth }
-    -- generous: see `Theorems/C04.lean` for the bound that is proved sufficient
-    let fuel := (depth + 4) * (maxSeq + 8 * S.size + 64) + 16 * bs.length + 4096
-    let (r, st) := de deExtModel cfg S fuel root depth false hint (mk bs)
-    match r with
-    | .ok o => pure s!"ok {outToString o} left {st.rest.length}"
-    | .error .custom => pure "err custom"
-    | .error .io => pure "err io"
-    | .error .panic => pure "panic"
+    pure (fmtDe (deOne cfg S root depth hint (mk bs)))
+
+/-- drop the `borrowed` flags: the only difference allowed between back-ends on success -/
+partial def unborrow : Out → Out
+  | .str s _ => .str s false
+  | .bytes b _ => .bytes b false
+  | .some o => .some (unborrow o)
+  | .seq items => .seq (items.map unborrow)
+  | .map es => .map (es.map fun (k, v) => (unborrow k, unborrow v))
+  | .variant n p => .variant (unborrow n) (unborrow p)
+  | o => o
+
+/-- outcome up to what C11 allows to differ: the error class and the `borrowed` flags -/
+def c11Key : Except DeErr (Out × Nat) → String
+  | .ok (o, left) => s!"ok {outToString (unborrow o)} left {left}"
+  | .error .panic => "panic"
+  | .error _ => "err"
+
+/-- `c11 <maxSeq> <depth> <schema> <hint> <bytes> <k> <backend>*k`: one input through several
+    back-ends; oracle: all outcomes are the same value (or all errors) with the same bytes left. -/
+def runC11 : P String := do
+  let maxSeq ← pNat
+  let depth ← pNat
+  let sm ← pSchemaMut
+  let hint ← pHint
+  let bs ← pBytes
+  let mks ← pList (pBackend (fun b => { rest := b }))
+  let S := freezeNodes sm
+  match S[0]? with
+  | none => pure "noroot"
+  | some root =>
+    let cfg : DeConfig := { maxSeqSize := maxSeq, allowedDepth := depth }
+    let rs := mks.map fun mk => deOne cfg S root depth hint (mk bs)
+    let keys := rs.map c11Key
+    let verdict := match keys with
+      | [] => "ok"
+      | k :: rest => if rest.all (· == k) then "ok" else "VIOLATION slice and streamed input decode differently"
+    pure (" ; ".intercalate (rs.map fmtDe) ++ " # " ++ verdict)
 
 /-- `crc <bytes>` → fingerprint by the model; oracle: the specification's bit-serial CRC. -/
 def runCrc : P String := do
@@ -104,6 +148,7 @@ def dispatch (line : String) : String :=
       | "judge-ser" => some runJudgeSer
       | "crc" => some runCrc
       | "de" => some runDe
+      | "c11" => some runC11
       | _ => none
     match p with
     | none => s!"bad-case unknown stream {cmd}"
